@@ -45,6 +45,13 @@ static int verif_stub_read_dns_withq(int dns_fd, int tun_fd, char *buf, int bufl
 static void verif_stub_send_ping(int fd);
 static void verif_stub_send_chunk(int fd);
 #endif
+#ifdef STUB_SENDERS
+/* the client's name builders: send_query (message encoding + socket) is a recorder */
+#define SQSEL_int verif_real_send_query(int
+#define SQSEL_fd verif_stub_send_query(fd
+#define send_query(a, b) SQSEL_##a, b)
+static void verif_stub_send_query(int fd, char *hostname);
+#endif
 #ifdef STUB_READDNS
 /* read_dns_withq: the payload decoder has its own proof (group cli_namedec); calls pass `data` or `data + dataoffset` */
 #define NDSEL_char verif_real_dns_namedec(char
@@ -112,6 +119,9 @@ static int verif_sscanf4(const char *str, char *a, char *b, int *c, int *d);
 #endif
 #include VERIF_SHRUNK_TU
 #include VERIF_SHRUNK_MACROS
+#ifdef STUB_SENDERS
+#undef send_query
+#endif
 #ifdef STUB_READDNS
 #undef dns_namedec
 #undef recvfrom
@@ -647,6 +657,89 @@ void h_read_dns(void)
 		__CPROVER_assert(r == 0 || (r == -1 && g_rcv_ret < 0), "raw mode: nothing is handed to the DNS reply handlers (-1 only on a receive error)");
 		__CPROVER_assert(g_tunw <= 1 && (g_tunw == 0 || (g_unz_calls2 == 1 && g_unz_rc2 == 0 && g_tunw_data == g_unz_dst2 && g_tunw_len == g_unz_out2 && g_rcv_ret >= 4)), "raw mode: tun gets only a successfully inflated packet, with zlib's bytes and length");
 	}
+	VERIF_REACH();
+}
+#endif
+
+
+/* ---- the client's upstream name builders (C08: header characters and what build_hostname is asked to carry; C01: the
+ * fragment sent is the unsent part of the packet and sentlen is what the builder reports) ---------------------------------- */
+#ifdef STUB_SENDERS
+static int g_sq_calls; static char *g_sq_name; static char g_sq_h[5]; static _Bool g_sq_data_at_5, g_sq_data_at_1;
+static char *g_bh_buf;
+static void verif_stub_send_query(int fd, char *hostname)
+{
+	int k;
+	__CPROVER_assert(__CPROVER_r_ok(hostname, 5), "send_query: name readable");
+	g_sq_calls++; g_sq_name = hostname;
+	g_sq_data_at_5 = g_bh_buf == hostname + 5; g_sq_data_at_1 = g_bh_buf == hostname + 1;
+	for (k = 0; k < 5; k++) g_sq_h[k] = hostname[k];          /* ghost copy of the header characters */
+}
+static int g_bh_calls, g_bh_ret; static size_t g_bh_buflen, g_bh_datalen, g_bh_maxlen; static const char *g_bh_data, *g_bh_top; static const struct encoder *g_bh_enc;
+int build_hostname(char *buf, size_t buflen, const char *data, const size_t datalen, const char *topdomain_, const struct encoder *encoder, int maxlen)
+{
+	/* groups enc_build_hostname_b5/6/7: a NUL-terminated legal name carrying the first `result` bytes (1..datalen), at most
+	 * maxlen - 5 characters, written into buf[0..buflen) */
+	__CPROVER_assert(buflen >= 300 && __CPROVER_w_ok(buf, buflen), "build_hostname: name buffer of at least 300 bytes, writable for buflen bytes");
+	__CPROVER_assert(datalen >= 1 && __CPROVER_r_ok(data, datalen), "build_hostname: non-empty payload, readable for datalen bytes");
+	g_bh_calls++; g_bh_buf = buf; g_bh_buflen = buflen; g_bh_data = data; g_bh_datalen = datalen; g_bh_top = topdomain_; g_bh_enc = encoder; g_bh_maxlen = (size_t)maxlen;
+	__CPROVER_assume(g_bh_ret >= 1 && (size_t)g_bh_ret <= datalen);
+	return g_bh_ret;
+}
+int b32_5to8(int in) { return "abcdefghijklmnopqrstuvwxyz012345"[in & 31]; }
+#define B32C(v) ("abcdefghijklmnopqrstuvwxyz012345"[(v) & 31])
+static char g_top[8];
+void h_send_chunk(void)
+{
+	__CPROVER_havoc_object(&inpkt); __CPROVER_havoc_object(&outpkt);
+	__CPROVER_assume(CLIENT_WF() && outpkt.len > 0 && outpkt.offset < outpkt.len);      /* call sites: is_sending() and bytes remain (asserted there) */
+	userid_char = (char)nondet_int(); hostname_maxlen = nondet_int(); topdomain = g_top;
+	dataenc = nondet_bool() ? &base32_ops : nondet_bool() ? &base64_ops : nondet_bool() ? &base64u_ops : &base128_ops;
+	g_sq_calls = g_bh_calls = 0; g_bh_ret = nondet_int();
+	int len0 = outpkt.len, off0 = outpkt.offset;
+	char useq = outpkt.seqno, ufrag = outpkt.fragment, dseq = inpkt.seqno, dfrag = inpkt.fragment;
+	unsigned char ghost0 = g_m < sizeof(outpkt.data) ? (unsigned char)outpkt.data[g_m] : 0;
+	verif_real_send_chunk(8);
+	int avail = len0 - off0;
+	__CPROVER_assert(g_bh_calls == 1 && g_bh_data == outpkt.data + off0 && g_bh_datalen == (size_t)avail, "the name builder is offered exactly the unsent rest of the packet");
+	__CPROVER_assert(g_bh_top == g_top && g_bh_enc == dataenc && g_bh_maxlen == (size_t)hostname_maxlen && g_bh_buflen == 4096 - 5, "with the tunnel domain, the negotiated upstream codec and the configured length limit");
+	__CPROVER_assert(outpkt.sentlen == g_bh_ret, "sentlen is exactly what the builder reports as carried (it advances the offset on ack)");
+	__CPROVER_assert(outpkt.len == len0 && outpkt.offset == off0 && outpkt.seqno == useq && outpkt.fragment == ufrag && (!(g_m < sizeof(outpkt.data)) || (unsigned char)outpkt.data[g_m] == ghost0), "sending a fragment does not change the packet");
+	__CPROVER_assert(g_sq_calls == 1 && g_sq_data_at_5, "one query; the data part follows the 5-character header");
+	/* header as documented (doc/proto_00000502.txt, "Upstream data header": UUUU | SSS FF | FF DDD | GGGG L | CMC) */
+	__CPROVER_assert(g_sq_h[0] == userid_char, "header character 1 is the userid");
+	__CPROVER_assert(g_sq_h[1] == B32C(((useq & 7) << 2) | ((ufrag & 15) >> 2)), "header character 2: upstream sequence number (3 bits) and the upper two bits of the fragment number");
+	__CPROVER_assert(g_sq_h[2] == B32C(((ufrag & 3) << 3) | (dseq & 7)), "header character 3: lower two bits of the fragment number and the downstream sequence number being acknowledged");
+	__CPROVER_assert(g_sq_h[3] == B32C(((dfrag & 15) << 1) | (g_bh_ret == avail)), "header character 4: downstream fragment being acknowledged and the last-fragment flag, set exactly when this name carries the rest of the packet");
+	__CPROVER_assert((g_sq_h[4] >= 'a' && g_sq_h[4] <= 'z') || (g_sq_h[4] >= '0' && g_sq_h[4] <= '9'), "header character 5: cache-miss counter from a-z0-9");
+	VERIF_REACH();
+}
+#endif
+
+#ifdef STUB_SENDERS
+void h_send_packet(void)
+{
+	static char data[32];
+	size_t datalen = nondet_size_t();
+	char cmd = (char)nondet_int();
+	__CPROVER_assume(datalen >= 1 && datalen <= sizeof(data));         /* callers: 19 (login), 6 (version), 5 (fragsize), 4 (ping) bytes */
+	hostname_maxlen = nondet_int(); topdomain = g_top;
+	g_sq_calls = g_bh_calls = 0; g_bh_ret = nondet_int();
+	send_packet(8, cmd, data, datalen);
+	__CPROVER_assert(g_bh_calls == 1 && g_bh_data == data && g_bh_datalen == datalen && g_bh_top == g_top && g_bh_enc == &base32_ops && g_bh_maxlen == (size_t)hostname_maxlen && g_bh_buflen == 4096 - 1, "handshake and ping messages: the whole message is offered to the name builder, always in Base32, with the tunnel domain and the length limit");
+	__CPROVER_assert(g_sq_calls == 1 && g_sq_data_at_1 && g_sq_h[0] == cmd, "one query: command letter, then the data part");
+	VERIF_REACH();
+}
+void h_send_probe(void)
+{
+	int fragsize = nondet_int();
+	userid = (char)nondet_int();                                     /* the byte the server put into its version reply */
+	hostname_maxlen = nondet_int(); topdomain = g_top;
+	dataenc = nondet_bool() ? &base32_ops : &base128_ops;
+	g_sq_calls = g_bh_calls = 0; g_bh_ret = nondet_int();
+	send_fragsize_probe(8, fragsize);
+	__CPROVER_assert(g_bh_calls == 1 && g_bh_datalen == 256 && g_bh_top == g_top && g_bh_enc == dataenc && g_bh_maxlen == (size_t)hostname_maxlen && g_bh_buflen == 4096 - 5, "the probe name is built like a data chunk (same space, codec, domain, limit)");
+	__CPROVER_assert(g_sq_calls == 1 && g_sq_data_at_5 && g_sq_h[0] == 'r' && g_sq_h[1] == B32C(((userid & 15) << 1) | ((fragsize >> 10) & 1)) && g_sq_h[2] == B32C((fragsize >> 5) & 31) && g_sq_h[3] == B32C(fragsize & 31) && g_sq_h[4] == 'd', "probe header: r, userid and the 11-bit fragment size in Base32 digits, dummy CMC");
 	VERIF_REACH();
 }
 #endif
